@@ -761,7 +761,7 @@ def mentions(e, pred):
 
 
 class Path:
-    __slots__ = ("guards", "effects", "ret", "end", "blocks", "env", "heap")
+    __slots__ = ("guards", "effects", "ret", "end", "blocks", "env", "heap", "skip")
 
     def __init__(self):
         self.guards = []  # (atom_expr, outcome) ; outcome True/False or ('val', n) or ('variant', name) or ('other', excluded)
